@@ -207,6 +207,74 @@ def gen_req(rng, shape: dict, mismatch: float = 0.04) -> dict:
     return req
 
 
+def malformed_text(rng, shape: dict) -> tuple[dict, str]:
+    """A route text the grammar must refuse (one field out of range / misspelt): nothing may be sent."""
+    req = gen_req(rng, shape, mismatch=0.0)
+    text = encoderig.req_text(req)
+    kind = rng.choice(['label', 'mask', 'hostbits', 'origin', 'nexthop', 'med', 'aggregator', 'rd', 'community', 'truncated'])
+    if kind == 'label':
+        text += ' label 1048576'
+    elif kind == 'mask':
+        text = text.replace(f'/{req["plen"]}', '/129' if ':' in req['prefix'] else '/33', 1)
+    elif kind == 'hostbits':
+        text = ('route 10.0.0.1/24' if ':' not in req['prefix'] else 'route 2001:db8::1/32') + text[text.index(' next-hop') if ' next-hop' in text.split('/')[1][:12] else len(text.split(' ')[0]) + 1 + len(text.split(' ')[1]) :]
+    elif kind == 'origin':
+        text += ' origin sideways'
+    elif kind == 'nexthop':
+        text = text.replace('next-hop ', 'next-hop 999.1.1.1 next-hop ', 1)
+    elif kind == 'med':
+        text += ' med minus-one'
+    elif kind == 'aggregator':
+        text += ' aggregator ( 65000 )'
+    elif kind == 'rd':
+        text += ' rd 4294967296:4294967296'
+    elif kind == 'community':
+        text += ' community [ 65536:65536:1 ]'
+    else:
+        text = text.rsplit(' ', 1)[0] + ' as-path ['
+    return req, text
+
+
+def run_malformed(ctx: Ctx) -> None:
+    """The malformed stream: whatever the parser does with a bad text, an UPDATE that comes out of it must
+    still decode (it normally refuses and nothing is sent)."""
+    from exabgp.bgp.message.update.collection import RoutedNLRI, UpdateCollection
+
+    rng = ctx.rng
+    n = 150 if ctx.tier == 'quick' else 3000
+    lines, metas = [], []
+    for _ in range(n):
+        shape = gen_shape(rng)
+        sess = Session.get(shape)
+        _, text = malformed_text(rng, shape)
+        ctx.evaluations += 1
+        try:
+            routes = sess.cfg.parse_route_text(text)
+        except Exception as e:
+            ctx.count('malformed:parser-raised-' + type(e).__name__)
+            continue
+        if not routes:
+            ctx.count('malformed:refused')
+            continue
+        ctx.count('malformed:accepted')
+        for route in routes:
+            try:
+                route = sess.n.resolve_self(route)
+                for m in UpdateCollection([RoutedNLRI(route.nlri, route.nexthop)], [], route.attributes).messages(sess.neg):
+                    lines.append(f'wire decode {encoderig.wire_params(sess.words)} {bytes(m)[19:].hex()}')
+                    metas.append((shape, text, sess.words))
+            except Exception as e:
+                ctx.count('malformed:pack-raised-' + type(e).__name__)
+    for (shape, text, words), out in zip(metas, common.run_driver('drv_wire', lines) if lines else []):
+        if out.startswith('ok '):
+            ctx.count('malformed:sent-decodable')
+        elif realistic(shape):
+            ctx.count('malformed:sent-undecodable')
+            canon = ['malformed-text-sent-undecodable', out]
+            if not any(f.canon == canon for f in ctx.failures):
+                ctx.failures.append(Failure('update-class', canon, {'shape': shape, 'text': text, 'session': words, 'decoded': out}, f'a text the grammar should refuse produced an UPDATE the RFC decoder rejects: {out}'))
+
+
 def huge_req(rng, shape: dict) -> dict:
     """Attributes sized around the 4096 / 65535 limit."""
     req = gen_req(rng, shape, mismatch=0.0)
@@ -404,6 +472,7 @@ def run(ctx: Ctx) -> None:
                     )
                 )
     if ctx.driver_ok:
+        run_malformed(ctx)
         run_cli(ctx)
 
 
